@@ -113,7 +113,9 @@ pub fn run_scenario(sc: &Scenario) -> Trace {
     if !sc.sim.receipts.is_empty() {
         sim.receipt_seq = sc.sim.receipts.clone();
     }
-    sim.dangling = sc.sim.dangling;
+    if sc.observe_new {
+        sim.dangling = sc.sim.dangling;
+    }
     sim.card_replies = sc.sim.card_replies.iter().map(|h| crate::engine::unhex(h)).collect();
     sim.reversal_status = sc.sim.reversal_status.iter().map(|h| crate::engine::unhex(h)).collect();
     sim.chatter = sc.sim.chatter.iter().map(|h| crate::engine::unhex(h)).collect();
@@ -139,7 +141,10 @@ pub fn run_scenario(sc: &Scenario) -> Trace {
         }
         let conns_before = world.sim.lock().unwrap().conns;
         if !sc.observe_new {
-            install(&mut world.sim.lock().unwrap(), &sc.plan, &sc.connect_plan, sc.connect_default);
+            let mut g = world.sim.lock().unwrap();
+            // a dangling pre-authorisation appears after start-up (Feig::new's own clean-up would remove an earlier one)
+            g.dangling = sc.sim.dangling;
+            install(&mut g, &sc.plan, &sc.connect_plan, sc.connect_default);
         }
         let mut calls = vec![];
         for op in &sc.ops {
